@@ -37,7 +37,7 @@ def block_lines(b, i):
     k = b[0]
     if k == "p":
         # white space that matters: a hard break written as two trailing blanks, a tab inside the text, a backslash break
-        return [[f"P{i}x"], [f"P{i}x one  ", "two\ttab"], [f"P{i}x one\\", "two"]][i % 3]
+        return [[f"P{i}x"], [f"  P{i}x indented", "more"], [f"P{i}x one  ", "two\ttab"], [f"P{i}x one\\", "two"]][i % 4]
     if k == "code":
         # trailing blanks and tabs inside code are content; an indented code block written with a tab
         return [["```", f"C{i}x\tt  ", "\tlead  ", "  ", "last", "```"], ["<!-- ends any open list item / footnote definition -->", "", f"\tC{i}x tabbed  ", "\t\tmore"]][i % 2]
@@ -101,7 +101,9 @@ def pair(pre, x, post, w, d: Path, uid):
     elif w == "colon":
         wx = [":" * cl + "{note}"] + lx + [":" * cl]
     elif w == "opts":
-        wx = ["`" * fl + "{note}", ":class: c1", ""] + lx + ["`" * fl]
+        # the body follows the option block after a blank line, or directly (when its first line cannot be an option line)
+        tight = uid % 3 == 0 and lx and not lx[0].lstrip().startswith(":") and lx[0].strip() != ""
+        wx = ["`" * fl + "{note}", ":class: c1"] + ([] if tight else [""]) + lx + ["`" * fl]
     elif w == "nested2":
         wx = ["`" * (fl + 1) + "{note}", "`" * fl + "{warning}"] + lx + ["`" * fl, "`" * (fl + 1)]
     elif w == "div":
@@ -122,11 +124,13 @@ def signatures(doc, blocks):
     """per block: (signature string, outcome kind)"""
     from docutils import nodes
     sigs, kinds = [], []
+    inside = []
     for i, b in enumerate(blocks, 1):
         k = b[0]
         if k == "def":
             sigs.append("")
             kinds.append("ok")
+            inside.append(None)
             continue
         mk = f"{MARK[k]}{i}x"
         hit = None
@@ -144,7 +148,9 @@ def signatures(doc, blocks):
         if hit is None:
             sigs.append("<missing>")
             kinds.append("missing-node")
+            inside.append(None)
             continue
+        inside.append(any(isinstance(a, (nodes.Admonition, nodes.container)) for a in _anc(hit)))
         cp = hit.deepcopy()
         for sm in list(cp.findall(nodes.system_message)):
             sm.parent.replace(sm, nodes.comment("", "<message>"))       # message text carries source path and line (C04)
@@ -162,6 +168,7 @@ def signatures(doc, blocks):
             kinds.append("resolved" if rr and not bad else "missing")
         else:
             kinds.append("ok")
+    signatures.inside = inside
     return sigs, kinds
 
 
@@ -179,6 +186,9 @@ def observe(case):
     pre, x, post, w = case["pre"], case["x"], case["post"], case["w"]
     a, b, ovb = pair(pre, x, post, w, d, case["id"])
     base = {"myst_enable_extensions": ["colon_fence", "substitution"]}
+    sort = case["id"] % 2 == 0
+    if not sort:
+        base["myst_footnote_sort"] = False         # (footnote definitions then stay where they are written)
     blocks = pre + x + post
     try:
         da, _ = docutils_doctree(a, dict(base), source_path=str(d / "a.md"))
@@ -187,7 +197,7 @@ def observe(case):
         return {"error": f"{type(e).__name__}: {e}", "a": a, "b": b}
     sa, ka = signatures(da, blocks)
     sb, kb = signatures(db, blocks)
-    return {"a": a, "b": b, "sigA": sa, "sigB": sb, "kindsA": ka, "kindsB": kb}
+    return {"a": a, "b": b, "sigA": sa, "sigB": sb, "kindsA": ka, "kindsB": kb, "insideB": signatures.inside, "sort": sort}
 
 
 def _sig_known(c):
@@ -243,6 +253,14 @@ def run(ctx):
             continue
         nontrivial = any(b[0] in ("def", "fdef", "tgt", "cdir", "nuse") for b in c["x"])
         ctx.count((leg, c["id"]), nontrivial)
+        if c["w"] in ("btick", "colon", "opts", "nested2", "div"):
+            # what is written in a directive's body is rendered INTO the directive's node (only collected footnotes leave it)
+            blocks_ = c["pre"] + c["x"] + c["post"]
+            for n_ in range(len(c["pre"]), len(c["pre"]) + len(c["x"])):
+                if o["insideB"][n_] is False and not (blocks_[n_][0] == "fdef" and o["sort"]):
+                    ctx.violation(f"block {n_ + 1} {blocks_[n_]} written in the body of the wrapper {c['w']} is not inside the wrapper's node "
+                                  f"(footnote_sort={o['sort']})", case)
+                    break
         keep[c["id"]] = (c, o, case)
         enc = lambda ss: [intern.setdefault(s, len(intern) + 1) for s in ss]      # noqa: E731
         traces.append({"id": c["id"], "pre": c["pre"], "x": c["x"], "post": c["post"], "w": c["w"],
